@@ -18,6 +18,8 @@ import (
 	"github.com/codelaboratoryltd/bng/pkg/radius"
 	"go.uber.org/zap"
 
+	cebpf "github.com/cilium/ebpf"
+
 	"verif/deepdump"
 	"verif/explore"
 	"verif/nativebpf"
@@ -44,13 +46,18 @@ var psubs = map[string]net.IP{ // byte-palindromic: independent of the byte-orde
 }
 
 type psys struct {
-	k     *nativebpf.Kernel
-	pm    *radius.PolicyManager
-	mgr   *qos.Manager
-	defs  map[string]string // policy name -> value id currently defined
-	want  map[string]*pval  // subscriber -> what the last successful set asked for (nil = none)
-	viols []explore.Viol
-	last  string
+	k    *nativebpf.Kernel
+	pm   *radius.PolicyManager
+	mgr  *qos.Manager
+	defs map[string]string // policy name -> value id currently defined
+	want map[string]*pval  // subscriber -> what the last successful set asked for (nil = none)
+	// alt: after a set call that FAILED (fault injected at one of its two kernel-map writes) the caller was told so and
+	// the state of each direction may be the previous contract or the requested one - but a subscriber that had a
+	// contract must not end up unlimited. alt holds the requested values of such a failed call.
+	alt       map[string]*pval
+	faultUsed bool
+	viols     []explore.Viol
+	last      string
 }
 
 func newPsys(k *nativebpf.Kernel) *psys {
@@ -65,16 +72,38 @@ func newPsys(k *nativebpf.Kernel) *psys {
 		panic(err)
 	}
 	mgr.VerifSetMaps(k.Coll.Maps)
-	return &psys{k: k, pm: pm, mgr: mgr, defs: map[string]string{}, want: map[string]*pval{}}
+	return &psys{k: k, pm: pm, mgr: mgr, defs: map[string]string{}, want: map[string]*pval{}, alt: map[string]*pval{}}
 }
 
 func (s *psys) Ops() []string {
-	return []string{
+	o := []string{
 		"def P a", "def P b", "def Q c", "undef P",
 		"apply s1 P", "apply s1 Q", "apply s2 P",
 		"set s1 d", "set s1 a",
 		"rm s1",
 	}
+	if !s.faultUsed { // at most one deviation per history: one kernel-map write of one set call fails
+		o = append(o, "set s1 b !qos_ingress", "set s1 b !qos_egress")
+	}
+	return o
+}
+
+// withFault runs f while the named kernel map of the manager is replaced by a closed handle (every operation on it
+// fails with EBADF), then restores the real maps.
+func (s *psys) withFault(mapName string, f func()) {
+	dead, err := s.k.Coll.Maps[mapName].Clone()
+	if err != nil {
+		panic(err)
+	}
+	dead.Close()
+	ms := map[string]*cebpf.Map{}
+	for n, m := range s.k.Coll.Maps {
+		ms[n] = m
+	}
+	ms[mapName] = dead
+	s.mgr.VerifSetMaps(ms)
+	defer s.mgr.VerifSetMaps(s.k.Coll.Maps)
+	f()
 }
 
 func (s *psys) v(kind, site, f string, a ...any) {
@@ -111,9 +140,23 @@ func (s *psys) Apply(op string) string {
 		}
 		v := pvals[id]
 		s.want[f[1]] = &v
+		delete(s.alt, f[1])
 		return "ok"
 	case "set":
 		v := pvals[f[2]]
+		if len(f) == 4 { // fault variant
+			s.faultUsed = true
+			var err error
+			s.withFault(strings.TrimPrefix(f[3], "!"), func() {
+				err = s.mgr.SetSubscriberQoS(&qos.SubscriberQoS{IP: psubs[f[1]], DownloadBPS: v.down, UploadBPS: v.up, BurstBytes: v.burst, Priority: v.prio})
+			})
+			if err == nil {
+				s.v("fault-swallowed", "SetSubscriberQoS", "%s: a kernel-map write failed but the call reported success", op)
+			}
+			s.alt[f[1]] = &v
+			return "err"
+		}
+		delete(s.alt, f[1])
 		if err := s.mgr.SetSubscriberQoS(&qos.SubscriberQoS{IP: psubs[f[1]], DownloadBPS: v.down, UploadBPS: v.up, BurstBytes: v.burst, Priority: v.prio}); err != nil {
 			s.v("policy-rejected", "SetSubscriberQoS", "%s: %v", op, err)
 			return "err"
@@ -126,6 +169,7 @@ func (s *psys) Apply(op string) string {
 			return "err"
 		}
 		delete(s.want, f[1])
+		delete(s.alt, f[1])
 		return "ok"
 	}
 	panic("unknown op " + op)
@@ -149,39 +193,59 @@ func (s *psys) Fingerprint() string {
 	}
 	sort.Strings(d)
 	// the manager's own tracking table (a set call may consult it), the definitions and the kernel bytes
-	return strings.Join(d, ",") + "|" + s.entries() + "|" +
+	for sub, a := range s.alt {
+		d = append(d, fmt.Sprintf("alt:%s=%v", sub, *a))
+	}
+	sort.Strings(d)
+	return fmt.Sprint(s.faultUsed) + strings.Join(d, ",") + "|" + s.entries() + "|" +
 		deepdump.Dump(s.mgr, deepdump.Options{SkipTypes: map[string]bool{"ebpf.Map": true, "ebpf.Collection": true, "zap.Logger": true, "radius.PolicyManager": true}})
 }
 
 func (s *psys) Check() []explore.Viol {
 	for _, sub := range []string{"s1", "s2"} {
-		w := s.want[sub]
+		w, a := s.want[sub], s.alt[sub]
 		for dir, mn := range []string{"qos_egress", "qos_ingress"} {
 			raw, err := s.k.Coll.Maps[mn].LookupBytes([]byte(psubs[sub]))
-			if w == nil {
-				if err == nil && raw != nil {
-					s.v("policy-not-removed", mn, "after %q subscriber %s has no QoS contract but %s still holds %x", s.last, sub, mn, raw)
+			present := err == nil && raw != nil
+			// acceptable contracts for this direction: the last successfully set one, or (after a failed set) the requested one
+			var acc []*pval
+			if w != nil {
+				acc = append(acc, w)
+			}
+			if a != nil {
+				acc = append(acc, a)
+			}
+			if !present {
+				if w != nil { // had a contract (and a failed update does not take it away): must still be limited
+					s.v("policy-not-written", mn, "after %q subscriber %s has a contract but %s has no entry under the wire bytes of its address: unlimited (err=%v)", s.last, sub, mn, err)
 				}
 				continue
 			}
-			if err != nil || raw == nil {
-				s.v("policy-not-written", mn, "after %q subscriber %s has a contract but %s has no entry under the wire bytes of its address (err=%v)", s.last, sub, mn, err)
+			if len(acc) == 0 {
+				s.v("policy-not-removed", mn, "after %q subscriber %s has no QoS contract but %s still holds %x", s.last, sub, mn, raw)
 				continue
 			}
 			// C layout: tokens u64, last_update u64, rate_bps u64, burst_bytes u32, priority u8
 			gotTokens := binary.LittleEndian.Uint64(raw[0:8])
 			gotRate := binary.LittleEndian.Uint64(raw[16:24])
 			gotBurst := binary.LittleEndian.Uint32(raw[24:28])
-			wantRate, wantBurst := w.down, w.burst
-			if dir == 1 {
-				wantRate = w.up
+			ok := false
+			for _, c := range acc {
+				wantRate, wantBurst := c.down, c.burst
+				if dir == 1 {
+					wantRate = c.up
+				}
+				if dir == 1 || c.burst == 0 {
+					wantBurst = gotBurst // derived by the manager (documented default), not part of the request
+				}
+				if gotRate == wantRate && gotBurst == wantBurst && gotTokens <= uint64(gotBurst) && raw[28] == c.prio && gotBurst != 0 {
+					ok = true
+				}
 			}
-			if dir == 1 || w.burst == 0 {
-				wantBurst = gotBurst // derived by the manager (documented default), not part of the request
-			}
-			if gotRate != wantRate || gotBurst != wantBurst || gotTokens > uint64(gotBurst) || raw[28] != w.prio || gotBurst == 0 {
-				s.v("policy-mismatch", mn, "after %q the contract last set for %s is rate=%d burst=%d prio=%d; map %s enforces rate=%d burst=%d tokens=%d prio=%d",
-					s.last, sub, wantRate, w.burst, w.prio, mn, gotRate, gotBurst, gotTokens, raw[28])
+			if !ok {
+				c := acc[0]
+				s.v("policy-mismatch", mn, "after %q the contract last set for %s is down=%d up=%d burst=%d prio=%d; map %s enforces rate=%d burst=%d tokens=%d prio=%d",
+					s.last, sub, c.down, c.up, c.burst, c.prio, mn, gotRate, gotBurst, gotTokens, raw[28])
 			}
 		}
 	}
